@@ -142,7 +142,13 @@ def check_mer(ctx, key, g, tmap, nsets):
                 same = [r for r in det if r["ref"] == base["ref"]]
                 sets.append([rng.choice(same) for _ in range(Msz)])
         w = [[rng.choice((1, 2, 3, 5)) for _ in range(Msz)] for _ in range(N)]
-        logp = torch.tensor(w, dtype=torch.double).log() + torch.tensor([[rng.choice((0.0, -1.5, 2.0))] for _ in range(N)], dtype=torch.double)
+        # softmax weights depend on differences only: strongly negative sequence log-probabilities (sums over many tokens)
+        # and single precision are part of the universe
+        logp = torch.tensor(w, dtype=torch.double).log() + torch.tensor([[rng.choice((0.0, -1.5, 2.0, -150.0, -400.0))] for _ in range(N)], dtype=torch.double)
+        single = rng.random() < 0.5
+        if single:
+            logp = logp.float()
+        tol = 1e-5 if single else 1e-6
         hyp = torch.tensor([[[tmap[s] for s in r["hyp"]] for r in row] for row in sets])  # (N, M, H)
         ref3 = torch.tensor([[[tmap[s] for s in r["ref"]] for r in row] for row in sets])  # (N, M, R)
         for sub_avg in (False, True):
@@ -159,7 +165,8 @@ def check_mer(ctx, key, g, tmap, nsets):
                 er = torch.tensor(ers, dtype=torch.double)
                 if sub_avg:
                     er = er - er.mean(1, keepdim=True)
-                sm = torch.tensor(w, dtype=torch.double)
+                # softmax of the log-probabilities actually supplied (single precision rounds log w - 400), in double
+                sm = (logp.double() - logp.double().max(1, keepdim=True)[0]).exp()
                 sm = sm / sm.sum(1, keepdim=True)
                 exp_none = er * sm
                 for bf in (False, True):
@@ -170,7 +177,7 @@ def check_mer(ctx, key, g, tmap, nsets):
                         else:
                             r_in = ref3.permute(2, 0, 1).contiguous() if three_d else ref3[:, 0].t().contiguous()
                             h_in = hyp.permute(2, 0, 1).contiguous()
-                        kw = dict(sub_avg=sub_avg, norm=norm, batch_first=bf, reduction=red, three_d=three_d)
+                        kw = dict(sub_avg=sub_avg, norm=norm, batch_first=bf, reduction=red, three_d=three_d, single=single)
                         case = dict(fn="minimum_error_rate_loss", log_probs=logp.tolist(), ref=r_in.tolist(), hyp=h_in.tolist(),
                                     eos=eos, include_eos=inc, cost=list(c), kwargs=kw)
                         use_module = rng.random() < 0.3
@@ -188,7 +195,7 @@ def check_mer(ctx, key, g, tmap, nsets):
                         ctx.case(n=1)
                         ctx.count("mer_calls")
                         got = got.double()
-                        if got.shape != exp.shape or not bool(((got - exp).abs() <= 1e-6).all()):
+                        if got.shape != exp.shape or not bool(((got - exp).abs() <= tol).all()):
                             case["expected"] = exp.tolist()
                             case["got"] = got.tolist()
                             ctx.violation(dict(site="minimum_error_rate_loss", kind="value"),
@@ -246,12 +253,13 @@ def replay(ctx, case):
     cost = case["cost"]
     kw = dict(case["kwargs"])
     if case["fn"] == "minimum_error_rate_loss":
-        got = _ed.quiet(F.minimum_error_rate_loss, torch.tensor(case["log_probs"], dtype=torch.double), torch.tensor(case["ref"]),
+        single = bool(kw.get("single"))
+        got = _ed.quiet(F.minimum_error_rate_loss, torch.tensor(case["log_probs"], dtype=torch.float if single else torch.double), torch.tensor(case["ref"]),
                         torch.tensor(case["hyp"]), case["eos"], case["include_eos"], kw["sub_avg"], kw["batch_first"], kw["norm"],
                         float(cost[0]), float(cost[1]), float(cost[2]), kw["reduction"], False).double()
         exp = torch.tensor(case["expected"], dtype=torch.double)
         print("replay mer: got %r expected %r" % (got.tolist(), exp.tolist()))
-        if got.shape != exp.shape or not bool(((got - exp).abs() <= 1e-6).all()):
+        if got.shape != exp.shape or not bool(((got - exp).abs() <= (1e-5 if single else 1e-6)).all()):
             ctx.violation(dict(site="minimum_error_rate_loss", kind="value"), "replayed case still differs", case)
         return
     ref = torch.tensor([case["ref"]]).t()
